@@ -7,7 +7,10 @@ A cell is a dict
                                                         recv_message, recv_trailing_metadata, cancel, context exit)
   reason  : paused | window | slot | silent            (state of the connection when the op runs; the peer is
                                                         silent in every cell)
-  event   : rst | goaway | garbage | lost | close
+  event   : rst | goaway | garbage | lost | close | serr
+            (serr: a stream-level protocol violation by the peer that makes the client's h2 reset the stream
+             ITSELF -- StreamReset(remote_reset=False); `violation` = window: two WINDOW_UPDATEs overflowing
+             the stream window | data: a stray DATA frame after the server's END_STREAM)
   order   : before | during                            (event before the op starts / while it is blocked)
   deadline: bool
   status  : none | h503 | tonly7 | trailers5 | trailers0   (what the server had already sent for this call)
@@ -16,6 +19,7 @@ A cell is a dict
   holder  : idle | blocked                             (reason=slot: what the call holding the slot is doing)
 """
 import asyncio
+import struct
 
 from h2.settings import SettingCodes
 
@@ -27,7 +31,7 @@ from harness.svc import exc_name
 
 OPS = ['sr', 'sm', 'en', 'ri', 'rm', 'rt', 'ca', 'ax']
 REASONS = ['paused', 'window', 'slot', 'silent']
-EVENTS = ['rst', 'goaway', 'garbage', 'lost', 'close']
+EVENTS = ['rst', 'goaway', 'garbage', 'lost', 'close', 'serr']
 ORDERS = ['before', 'during']
 STATUSES = ['none', 'h503', 'tonly7', 'trailers5', 'trailers0']
 OPNAME = {'sr': 'send_request', 'sm': 'send_message', 'en': 'end', 'ri': 'recv_initial_metadata',
@@ -36,6 +40,15 @@ DEADLINE = 64.0          # seconds (dyadic); far beyond the 'prompt' window
 PROMPT_SPAN = 1.0
 # a frame h2 must refuse: CONTINUATION (type 9) without a preceding HEADERS
 GARBAGE = b'\x00\x00\x04\x09\x00\x00\x00\x00\x01abcd'
+
+
+def stream_violation(peer, sid, kind):
+    """the peer breaks an HTTP/2 rule that concerns ONE stream: the client's h2 resets that stream itself"""
+    if kind == 'data':
+        peer.raw(P.data_frame(sid, b'stray'))              # DATA after the server's END_STREAM
+    else:
+        wu = P.frame_bytes(0x8, 0, sid, struct.pack('>I', 0x7fffffff))
+        peer.raw(wu + wu)                                  # stream window above 2^31-1
 
 
 def _chain(coro):
@@ -237,6 +250,13 @@ def run_cell(cell):
                     ce.peer.reset(s, 8)
                 except Exception:
                     return 'rst-infeasible'          # both sides ended the stream: the peer's h2 refuses
+            elif event == 'serr':
+                s = stream._stream.id if stream._send_request_done else None
+                if s is None:
+                    return 'no-stream-for-rst'
+                if stream._end_done and (status.startswith('tonly') or status.startswith('trailers')):
+                    return 'rst-infeasible'          # closed on both sides: h2 ignores frames for it
+                stream_violation(ce.peer, s, cell.get('violation', 'window'))
             elif event == 'goaway':
                 ce.peer.goaway()
             elif event == 'garbage':
@@ -266,7 +286,7 @@ def run_cell(cell):
             q = loop.run_quiet(PROMPT_SPAN)
             obs['blocked'] = 'no'
             obs['site'] = 'no'
-            if sid is None and event != 'rst' and rec.get('op') == 'ok' and ce.connects == connects0 + 1:
+            if sid is None and event not in ('rst', 'serr') and rec.get('op') == 'ok' and ce.connects == connects0 + 1:
                 # the call had not touched the lost connection: its send_request opened a new one
                 obs['setup'] = 'call-unaffected'
                 hold.set()
@@ -380,6 +400,8 @@ def run_multi(spec):
             except Exception:
                 out['setup'] = 'rst-infeasible'
                 return out
+        elif ev == 'serr':
+            stream_violation(ce.peer, stream._stream.id, 'window')
         elif ev == 'goaway':
             ce.peer.goaway()
         elif ev == 'garbage':
